@@ -183,6 +183,9 @@ type gen struct {
 	forceDecl int
 	nmark     int
 	inLambda  bool   // the body of a function literal is being generated
+	onlyLog   bool   // of the package variables only glog may be mentioned
+	arr       *arrInfo
+	nilPtrs   []*vr // pointers of the current function that may be nil
 	names     *namer // identifiers of the program (see names_test.go)
 
 	feat   map[string]bool
@@ -802,6 +805,11 @@ func (g *gen) intExpr(d int) (string, ivl) {
 // ---------------------------------------------------------------- booleans, strings, bytes
 
 func (g *gen) boolExpr(d int) string {
+	if g.cur != nil && g.r.Intn(6) == 0 {
+		if e, ok := g.guardedMix(d); ok {
+			return e
+		}
+	}
 	if d <= 0 {
 		if v := g.pick(tBool, false); v != nil && g.r.Bool() {
 			return v.name
@@ -2177,12 +2185,16 @@ func (g *gen) stmt(depth int) {
 		g.branch()
 	case x < 88:
 		g.callStmt(depth)
+	case x < 89:
+		g.guardStmt()
 	case x < 91:
 		g.panicStmt()
 	case x < 94:
 		g.earlyReturn()
-	case x < 96 && depth > 0:
+	case x < 95 && depth > 0:
 		g.lambdaStmt(depth)
+	case x < 96 && depth > 0:
+		g.arrayStmt()
 	case x < 97 && depth > 0:
 		g.w("{")
 		g.block(1+g.r.Intn(2), depth-1)
@@ -2265,6 +2277,13 @@ func clip(s string) string {
 	return s
 }
 
+func bi(b bool) int {
+	if b {
+		return 1
+	}
+	return 0
+}
+
 func hs(s string) int {
 	h := len(s)
 	for i := 0; i < len(s); i++ {
@@ -2310,7 +2329,7 @@ func preludeFns() []*fn {
 	mk := func(name string, pt ty, rt ty) *fn {
 		return &fn{name: name, params: []*vr{{name: "x", t: pt, bound: 1 << 40}}, rets: []ty{rt}, retBound: modBig}
 	}
-	return []*fn{mk("hs", tStr, tInt), mk("hb", tBytes, tInt), mk("hi", tInts, tInt), mk("hm", tMapII, tInt), mk("hn", tMapSI, tInt)}
+	return []*fn{{name: "bi", params: []*vr{{name: "b", t: tBool}}, rets: []ty{tInt}, retBound: 1}, mk("hs", tStr, tInt), mk("hb", tBytes, tInt), mk("hi", tInts, tInt), mk("hm", tMapII, tInt), mk("hn", tMapSI, tInt)}
 }
 
 type fnPlan struct {
@@ -2345,6 +2364,8 @@ func (g *gen) genFunc(p fnPlan) {
 	}
 	g.lvl = 1
 	g.hasDefer = p.deferKind > 0
+	g.nilPtrs = nil
+	g.onlyLog = p.onlyLog
 	g.noUnc = p.recovers || p.noUnc
 	// a defer without recover must not see a panic pass: see the directed case
 	// "defer-without-recover-lets-panic-through"
@@ -2418,6 +2439,7 @@ func (g *gen) genFunc(p fnPlan) {
 			}
 		}
 	}
+	g.nilPtrDecls()
 	switch p.deferKind {
 	case 1:
 		// lambda touching globals only (closures are outside the dialect)
@@ -2486,6 +2508,12 @@ func (g *gen) genFunc(p fnPlan) {
 	if p.callProcs {
 		g.callTailProcs()
 		g.callRecoverPair()
+		if g.r.Bool() {
+			g.arrayStmt()
+		}
+		if g.r.Bool() {
+			g.guardStmt()
+		}
 	}
 	for g.budget > 0 {
 		g.stmt(p.depth)
@@ -2713,12 +2741,18 @@ func genProgram(idx int, tuples int) *program {
 		g.globals = append(g.globals, &vr{name: "gstr", t: tStr, global: true})
 	}
 	g.w("")
+	if r.Intn(4) > 0 {
+		g.arrayDecls(&resetLines)
+	}
 	g.w("func note(d int) {")
 	g.w("\tglog = (glog*10 + d) %% 1000003")
 	g.w("}")
 	g.w("")
 	g.globals = append(g.globals, &vr{name: "glog", t: tInt, bound: modBig - 1, global: true, ro: true})
 	g.sb.WriteString(pureBuf)
+	if g.arr != nil {
+		p.funcs = append(p.funcs, g.arrayFuncs()...)
+	}
 	noteFn := &fn{name: "note", params: []*vr{{name: "d", t: tInt, bound: 9}}, impure: true}
 
 	// init functions
